@@ -9,7 +9,7 @@ EXPLANATION = (
     "UnsafeCell reachable from Message/Chunk except the reference counts of Arc, so in safe Rust no holder of one "
     "Message can change bytes observable through another (Arc<Vec<u8>> hands out &mut only when unique), (iii) Clone "
     "for Message and Chunk is derived (clones share the Arc, own their window), (iv) the window fields start/end/bytes "
-    "and Message.chunks are written only inside the message module. Obligations = these facts; all must hold. "
+    "and Message.chunks are written only inside the message module. (v) Message::eq answers true only where the byte-wise comparison of the two messages did. Obligations = these facts; all must hold. "
     "Equivalence of the window arithmetic with the Vec<u8> model (first sentence) is numerical and not decided.")
 ASSUMPTIONS = [
     "unsafe blocks that come from the expansion of tokio::select! are tokio's and do not touch Message",
@@ -22,6 +22,7 @@ WRITE_APIS = ("lock", "write", "borrow_mut", "set", "store", "replace", "swap", 
 
 def run(ctx):
     prog = ctx.prog()
+    m_eq(ctx)
     # (i) unsafe inventory
     if prog.unsafe:
         for cname, u in prog.unsafe:
@@ -85,3 +86,51 @@ def _write_api_uses(prog, adt_key):
                 if any(a[0] == "field" and a[1].startswith(adt_key) for a in o):
                     out.append(F.call_loc(t))
     return out
+
+
+
+def m_eq(ctx):
+    """Equality of messages is equality of their byte strings: `Message::eq`, reduced to a formula, may answer `true`
+    only where the byte-wise comparison of the two iterators said so (shortcuts to `false`, e.g. on different
+    lengths, are fine); `iter` walks the chunks front to back and yields each chunk's window."""
+    from .. import symx as S
+    prog = ctx.prog()
+    eb = prog.method("Message", "eq", "PartialEq")
+    try:
+        t, _ = S.extract(prog, eb, effects=True)
+    except S.Unsupported as e:
+        ctx.require(False, "M-EQ: Message::eq cannot be reduced to a formula (%s)" % e)
+    me, ot = S.params_of(eb)
+    it = prog.method("Message", "iter")
+
+    def is_bytes_eq(x):
+        return x[0] == "call" and x[1].endswith("iterator::Iterator::eq") and len(x[2]) == 2 and \
+            {x[2][0], x[2][1]} == {("call", it.key, (me,)), ("call", it.key, (ot,))}
+
+    def is_len_cmp(x):
+        return x[0] == "bin" and x[1] in ("Eq", "Ne") and all(y[0] == "field" and y[2] == "len" or (y[0] == "call" and y[1].endswith("message::{impl#0}::len")) for y in (x[2], x[3]))
+    probs = []
+
+    def walk(x, conds):
+        if x[0] == "state":
+            return walk(x[1], conds)
+        if x[0] == "ite":
+            walk(x[2], conds + [(x[1], True)])
+            walk(x[3], conds + [(x[1], False)])
+            return
+        if x == ("bool", False) or is_bytes_eq(x):
+            return
+        if x == ("bool", True):
+            if any(is_bytes_eq(c) and v for c, v in conds):
+                return
+            probs.append("Message::eq answers `true` on a path that never compared the bytes (%s): messages of different contents or lengths compare equal" % (
+                " and ".join(("" if v else "not ") + S.term_str(c)[:60] for c, v in conds) or "unconditionally"))
+            return
+        # a boolean expression: conjunctions with the byte comparison are fine, anything else is a shortcut to true
+        if x[0] == "bin" and x[1] == "BitAnd" and (is_bytes_eq(x[2]) or is_bytes_eq(x[3])):
+            return
+        probs.append("Message::eq is decided by %s instead of the byte-wise comparison of the two messages" % S.term_str(x)[:120])
+    walk(t, [])
+    probs = sorted(set(probs))
+    (ctx.bad if probs else ctx.ok)("M-EQ", "M-EQ:Message::eq", eb.span, "; ".join(probs[:2]) if probs else
+        "Message::eq = %s: equal exactly when the byte strings are" % S.term_str(t)[:80])
